@@ -113,15 +113,26 @@ pub fn exec_run_opt(script: &RunScript, keep_log: bool, keep_text: bool, watchdo
         }
         Op::QRep { q, times } => {
           let s0 = next_seq();
-          let mut out = q.eval();
+          let first = q.eval();
+          let mut out = first.clone();
+          let mut odd: Option<Outcome> = None;
           for _ in 1..*times {
             // every repetition is an operation of its own for the step budget
             if !sim().op_start(tid, idx as u32) {
               break;
             }
             out = q.eval();
+            if odd.is_none() && (out.class() != first.class() || out.digest() != first.digest()) {
+              // an answer that differs from the first one of this very loop (a transient wrong
+              // answer under contention): recorded as an evaluation of its own
+              odd = Some(out.clone());
+            }
           }
           let s1 = next_seq();
+          if let Some(o) = odd {
+            ev2.lock().unwrap().push(EvalRec { tid: tid as u8, op: idx as u16, key: q.key(), class: first.class(), digest: first.digest(), text: clip(first.text(), keep_text), from_handle: false, rnew: None, seq: (s0, s0) });
+            ev2.lock().unwrap().push(EvalRec { tid: tid as u8, op: idx as u16, key: q.key(), class: o.class(), digest: o.digest(), text: clip(o.text(), keep_text), from_handle: false, rnew: None, seq: (s0, s1) });
+          }
           let rnew = if with_rnew && q.kind == K_LM_FROM_YM {
             let r = Query::new(K_LM_NEW, q.args.clone()).eval();
             Some((r.class(), r.digest(), clip(r.text(), keep_text)))
